@@ -2,7 +2,7 @@
 //! for ranks 0..=4 (const generics) through its public API.
 //!
 //! Case lines (lists comma separated, `-` = empty list):
-//!   get <dims> <idx> | at <dims> <idx> | ctor <vec|slice|new|read> <dims> <len> | iter <dims>
+//!   get <dims> <idx> | at <vec|slice|new|read> <dims> <idx> | ctor <vec|slice|new|read> <dims> <len> | iter <dims>
 //!   eq <dimsA> <dimsB> <dataA> <dataB> | write <i64|str> <dims> <data> | rt <i64|str> <chunk> <dims> <data>
 #[path = "../../common/mod.rs"]
 mod common;
@@ -38,11 +38,46 @@ fn arr<const D: usize>(v: &[usize]) -> Option<[usize; D]> {
     <[usize; D]>::try_from(v).ok()
 }
 
-fn res(r: Result<String, String>) -> String {
+/// Coarse panic class for the raw result: `assert!` (with or without a custom message), an explicit
+/// `panic!`, a slice-index panic and `unwrap` are one class — the property promises "a panic", not a
+/// message — arithmetic overflow is kept apart.  Must match `showP` in Driver/Tensor.lean.
+fn pc(r: Result<String, String>) -> String {
     match r {
         Ok(s) => s,
-        Err(e) => e,
+        Err(e) => {
+            if e == "panic:overflow" {
+                e
+            } else {
+                "panic:reject".to_string()
+            }
+        }
     }
+}
+
+/// view: any panic is just `panic`
+fn pv(s: &str) -> String {
+    if s.starts_with("panic:") && !s.contains('+') {
+        "panic".to_string()
+    } else {
+        s.to_string()
+    }
+}
+
+/// contents of a tensor: all elements up to 64, a position-weighted digest beyond
+fn show_data(xs: &[i64]) -> String {
+    if xs.len() <= 64 {
+        format!("data={}", show_list(xs.iter()))
+    } else {
+        let mut d: i128 = 0;
+        for (k, x) in xs.iter().enumerate() {
+            d = (d + (k as i128 + 1) * (*x as i128)).rem_euclid(1000000007);
+        }
+        format!("digest={}", d)
+    }
+}
+
+fn res(r: Result<String, String>) -> String {
+    pc(r)
 }
 
 /// all valid indices in nested-loop (lexicographic) order — the independent oracle for "row-major"
@@ -150,7 +185,7 @@ fn rt_case<T: Writable + Readable + Clone + PartialEq + std::fmt::Display, const
 
 fn run_d<const D: usize>(toks: &[&str]) -> String {
     match toks[0] {
-        "get" | "at" => {
+        "get" => {
             if toks.len() != 3 {
                 return INVALID.to_string();
             }
@@ -166,42 +201,75 @@ fn run_d<const D: usize>(toks: &[&str]) -> String {
                 return INVALID.to_string();
             }
             let n: usize = dims_v.iter().product();
-            let mut t = match catch(|| Tensor::<i64, D>::from_vec(dims, (0..n as i64).collect())) {
+            let t = match catch(|| Tensor::<i64, D>::from_vec(dims, (0..n as i64).collect())) {
                 Ok(t) => t,
                 Err(_) => return INVALID.to_string(),
             };
-            if toks[0] == "get" {
-                let raw = res(catch(|| t.get_index(idx).to_string()));
-                // oracle: position of idx in the nested-loop enumeration
-                let view = match oracle_position(&dims_v, &idx_v) {
-                    Some(k) => {
-                        if raw == k.to_string() {
-                            raw.clone()
-                        } else {
-                            format!("ORACLE-MISMATCH({},{})", raw, k)
-                        }
-                    }
-                    None => raw.clone(),
-                };
-                out2(&raw, &view)
-            } else {
-                let before: Vec<i64> = t.iter().cloned().collect();
-                let v = match catch(|| t[idx]) {
-                    Ok(v) => v,
-                    Err(e) => return out1(&e),
-                };
-                let set = catch(|| {
-                    t[idx] = -1;
-                });
-                let raw = match set {
-                    Err(e) => format!("v={} set={}", v, e),
-                    Ok(()) => {
-                        let changed = t.iter().zip(before.iter()).enumerate().filter(|(_, (a, b))| a != b).map(|(k, _)| k);
-                        format!("v={} set={}", v, show_list(changed))
-                    }
-                };
-                out1(&raw)
+            let r = pc(catch(|| t.get_index(idx).to_string()));
+            // oracle: position of idx in the nested-loop enumeration
+            let view = match oracle_position(&dims_v, &idx_v) {
+                Some(k) if r != k.to_string() => format!("ORACLE-MISMATCH({},{})", r, k),
+                _ => pv(&r),
+            };
+            out2(&r, &view)
+        }
+        "at" => {
+            if toks.len() != 4 {
+                return INVALID.to_string();
             }
+            let (dims_v, idx_v) = match (parse_usizes(toks[2]), parse_usizes(toks[3])) {
+                (Some(a), Some(b)) => (a, b),
+                _ => return INVALID.to_string(),
+            };
+            let (dims, idx) = match (arr::<D>(&dims_v), arr::<D>(&idx_v)) {
+                (Some(a), Some(b)) => (a, b),
+                _ => return INVALID.to_string(),
+            };
+            if dims_v.contains(&0) {
+                return INVALID.to_string();
+            }
+            let n = dims_v.iter().fold(1u128, |a, &d| a.saturating_mul(d as u128));
+            if n > 100000 {
+                return INVALID.to_string();
+            }
+            let n = n as usize;
+            let data: Vec<i64> = (0..n as i64).collect();
+            let built = match toks[1] {
+                "vec" => catch(|| Tensor::<i64, D>::from_vec(dims, data)),
+                "slice" => catch(|| Tensor::<i64, D>::from_slice(dims, &data)),
+                "new" => catch(|| Tensor::<i64, D>::new(dims, 7)),
+                "read" => {
+                    let text: Vec<String> = data.iter().map(|x| x.to_string()).collect();
+                    let bytes = text.join("\n").into_bytes();
+                    catch(|| {
+                        let mut rd = Reader::new(Box::new(Chunked { data: bytes, pos: 0, chunk: 3 }));
+                        Tensor::<i64, D>::read(dims, &mut rd)
+                    })
+                }
+                _ => return INVALID.to_string(),
+            };
+            let mut t = match built {
+                Ok(t) => t,
+                Err(_) => return INVALID.to_string(),
+            };
+            let before: Vec<i64> = t.iter().cloned().collect();
+            // the read and the write are evaluated independently: the write also when the read panicked
+            let v = pc(catch(|| t[idx].to_string()));
+            let after_read: Vec<i64> = t.iter().cloned().collect();
+            let set = catch(|| {
+                t[idx] = -1;
+            });
+            // every cell is compared with its old value (aliasing shows up as a foreign cell in the list)
+            let changed: Vec<usize> = t.iter().zip(before.iter()).enumerate().filter(|(_, (a, b))| a != b).map(|(k, _)| k).collect();
+            let set_s = match set {
+                Ok(()) => show_list(changed.iter()),
+                Err(e) => {
+                    let e = pc(Err(e));
+                    if changed.is_empty() { e } else { format!("{}+changed{}", e, show_list(changed.iter())) }
+                }
+            };
+            let v = if after_read != before || t.iter().count() != n { format!("{}+READ-MUTATED", v) } else { v };
+            out2(&format!("v={} set={}", v, set_s), &format!("v={} set={}", pv(&v), pv(&set_s)))
         }
         "ctor" => {
             if toks.len() != 4 {
@@ -227,7 +295,10 @@ fn run_d<const D: usize>(toks: &[&str]) -> String {
                 return INVALID.to_string();
             }
             let data: Vec<i64> = (0..len as i64).collect();
-            let show = |t: Tensor<i64, D>| format!("ok dims={} len={}", show_list(t.dims().iter()), t.iter().count());
+            let show = |t: Tensor<i64, D>| {
+                let xs: Vec<i64> = t.iter().cloned().collect();
+                format!("ok dims={} len={} {}", show_list(t.dims().iter()), xs.len(), show_data(&xs))
+            };
             let r = match toks[1] {
                 "vec" => catch(|| show(Tensor::<i64, D>::from_vec(dims, data))),
                 "slice" => catch(|| show(Tensor::<i64, D>::from_slice(dims, &data))),
@@ -245,7 +316,8 @@ fn run_d<const D: usize>(toks: &[&str]) -> String {
                 }
                 _ => return INVALID.to_string(),
             };
-            out1(&res(r))
+            let r = pc(r);
+            out2(&r, &pv(&r))
         }
         "iter" => {
             if toks.len() != 2 {
@@ -393,7 +465,7 @@ fn run_case(line: &str) -> String {
     }
     // the rank is the length of the (first) dims list
     let dims_tok = match toks[0] {
-        "ctor" | "write" => toks.get(2),
+        "ctor" | "write" | "at" => toks.get(2),
         "rt" => toks.get(3),
         _ => toks.get(1),
     };
@@ -483,7 +555,11 @@ fn gen(args: &Args, emit: &mut dyn FnMut(String), st: &mut Stats) {
     let thorough = args.tier == "thorough";
     let mut rng = SplitMix64::new(args.seed ^ 0xC19);
 
-    // (1) index probes: every shape, every valid index, every index out of range in exactly one dimension
+    // (1) index probes: every shape, every valid index, every index out of range in exactly one dimension.
+    //     `get` = get_index; `at <kind>` = t[idx] and (independently) t[idx] = v on a tensor built by `kind`,
+    //     with all cells compared afterwards.
+    const KINDS: [&str; 4] = ["vec", "slice", "new", "read"];
+    let mut rot = 0usize;
     for rank in 0..=4usize {
         let hi = if rank == 4 && !thorough { 4 } else { 5 };
         for dims in shapes(rank, 1, hi) {
@@ -492,34 +568,78 @@ fn gen(args: &Args, emit: &mut dyn FnMut(String), st: &mut Stats) {
             for idx in all_idx(&dims) {
                 let is = join(&idx);
                 emit(format!("get {} {}", ds, is));
-                emit(format!("at {} {}", ds, is));
-                st.add(&format!("index_valid_rank{}", rank), 2);
+                st.bump(&format!("index_valid_rank{}", rank));
+                if thorough {
+                    for k in KINDS {
+                        emit(format!("at {} {} {}", k, ds, is));
+                        st.bump(&format!("at_valid_{}", k));
+                    }
+                } else {
+                    rot += 1;
+                    for k in ["vec", KINDS[1 + rot % 3]] {
+                        emit(format!("at {} {} {}", k, ds, is));
+                        st.bump(&format!("at_valid_{}", k));
+                    }
+                }
                 // out of range in exactly dimension k (the other coordinates valid)
                 for k in 0..rank {
                     // each (other coordinates) combination once: only when idx[k] == 0
                     if idx[k] != 0 {
                         continue;
                     }
-                    let mut oob = vec![dims[k], dims[k] + 1];
-                    if thorough {
-                        oob.push(2 * dims[k] + 1);
-                        oob.push(1usize << 40);
-                    } else if rng.chance(1, 8) {
-                        oob.push(usize::MAX);
-                    }
-                    for v in oob {
-                        let mut j = idx.clone();
-                        j[k] = v;
-                        // does the flattened offset stay inside the storage (the aliasing case)?
+                    let offset = |j: &[usize]| -> u128 {
                         let mut off: u128 = 0;
                         for (a, d) in j.iter().zip(dims.iter()) {
                             off = off * (*d as u128) + *a as u128;
                         }
+                        off
+                    };
+                    // (value, all four constructor kinds?)
+                    let mut oob: Vec<(usize, bool)> = vec![(dims[k], true), (dims[k] + 1, true)];
+                    if thorough {
+                        // every out-of-range value whose flattened offset is still inside the storage
+                        let mut v = dims[k] + 2;
+                        loop {
+                            let mut j = idx.clone();
+                            j[k] = v;
+                            if offset(&j) >= n as u128 {
+                                break;
+                            }
+                            oob.push((v, false));
+                            v += 1;
+                        }
+                        oob.push((2 * dims[k] + 1, true));
+                        oob.push((1usize << 40, true));
+                        oob.push((usize::MAX, false));
+                    } else if rng.chance(1, 8) {
+                        oob.push((usize::MAX, false));
+                    } else if rng.chance(1, 4) {
+                        // a random further aliasing value
+                        let room = (n / dims[k].max(1)).max(1);
+                        oob.push((dims[k] + 2 + rng.below(room as u64) as usize, false));
+                    }
+                    for (v, all_kinds) in oob {
+                        let mut j = idx.clone();
+                        j[k] = v;
                         let js = join(&j);
                         emit(format!("get {} {}", ds, js));
-                        emit(format!("at {} {}", ds, js));
-                        st.add(if off < n as u128 { "index_oob_one_dim_offset_in_storage" } else { "index_oob_one_dim_offset_outside" }, 2);
-                        st.add(&format!("index_oob_dim{}_of_rank{}", k, rank), 2);
+                        let inside = offset(&j) < n as u128;
+                        let mut lines = 1;
+                        if thorough && all_kinds {
+                            for kd in KINDS {
+                                emit(format!("at {} {} {}", kd, ds, js));
+                                st.bump(&format!("at_oob_{}", kd));
+                                lines += 1;
+                            }
+                        } else {
+                            rot += 1;
+                            let kd = if thorough { "vec" } else { KINDS[rot % 4] };
+                            emit(format!("at {} {} {}", kd, ds, js));
+                            st.bump(&format!("at_oob_{}", kd));
+                            lines += 1;
+                        }
+                        st.add(if inside { "index_oob_one_dim_offset_in_storage" } else { "index_oob_one_dim_offset_outside" }, lines);
+                        st.add(&format!("index_oob_dim{}_of_rank{}", k, rank), lines);
                     }
                 }
             }
@@ -527,7 +647,8 @@ fn gen(args: &Args, emit: &mut dyn FnMut(String), st: &mut Stats) {
             if rank >= 2 {
                 let j: Vec<usize> = dims.iter().map(|d| d + rng.below(2) as usize).collect();
                 emit(format!("get {} {}", ds, join(&j)));
-                st.bump("index_oob_multi_or_valid_random");
+                emit(format!("at {} {} {}", KINDS[rot % 4], ds, join(&j)));
+                st.add("index_oob_multi_or_valid_random", 2);
             }
             emit(format!("iter {}", ds));
             st.bump("iter");
